@@ -55,6 +55,16 @@ def revalidation(F, R):
         idiom_b = bool(pre) and bool(rollback) and f.exists_path(inv_arm, f.ret_sites(), rollback) is None
         # the invalid arm ends in an error
         errs = [e for e in f.err_exit_sites() if f.edge_dominates(b, t_invalid, e.b)]
+        if idiom_a and not idiom_b:
+            # validate-then-commit validates the CANDIDATE (a local copy the operation was applied to), not the still unchanged self
+            pv = f.prov_operand(iv[0].args[0])
+            cand = False
+            what = pv.render()
+            if pv.root[0] == 'call' and pv.root[1].args:
+                p2 = f.prov_operand(pv.root[1].args[0])
+                what = '%s(%s)' % (core.short(pv.root[1].callee or '?'), p2.render())
+                cand = any(v[0] == 'var' for v in p2.via) or p2.root[0] in ('var', 'multi', 'local')
+            R.ob('FLOW', 'FLOW::%s::validates-the-candidate' % fnkey(f), cand, 'is_invalid_content(%s): in the validate-then-commit idiom the tested bytes are those of the local copy the operation was applied to; testing `self` tests the old, still valid content and commits anything' % what[:100], iv[0].where, f)
         R.ob('SIBLINGS', key, (idiom_a or idiom_b) and bool(errs), '%s: %s; the invalid arm returns an error (%d exit)' % (f.name, 'validate-then-commit' if idiom_a else ('commit-validate-rollback' if idiom_b else 'NEITHER idiom: a commit is reachable without / despite failed validation'), len(errs)), iv[0].where, f)
     # the remaining mutators are pure forwards to validated ones
     for nm, to in (('insert', 'insert_bytes'), ('push', 'insert'), ('push_bytes', 'insert_bytes'), ('pop', 'remove')):
